@@ -379,3 +379,108 @@ def delivered (Γ : Env) (ρ : Store) (t : Ty) : Bind → Option (List J)
     | none => none
 
 end Martian.Typing
+
+namespace Martian.Typing
+open Martian.Json Martian.Types
+
+/-! ## `UnusedInputError` (`compilePipelineArgs`, `getBoundParamIds`) -/
+
+mutual
+  /-- the pipeline inputs an expression refers to, at any depth of a literal -/
+  def Exp.selfIds : Exp → List Bytes
+    | .self id _ => [id]
+    | .arr xs => xs.selfIds
+    | .map _ kvs => kvs.selfIds
+    | _ => []
+  def Exps.selfIds : Exps → List Bytes
+    | .nil => []
+    | .cons e r => e.selfIds ++ r.selfIds
+  def KVs.selfIds : KVs → List Bytes
+    | .nil => []
+    | .cons _ e r => e.selfIds ++ r.selfIds
+end
+
+def Bind.selfIds : Bind → List Bytes
+  | .plain e => e.selfIds
+  | .split e => e.selfIds
+
+/-- modifier bindings: `boundParamIds[refexp.Id]` for a binding that IS a
+reference – whatever the kind of the reference -/
+def modIds : List ModItem → List Bytes
+  | [] => []
+  | .dis (.self id _) :: r => id :: modIds r
+  | .dis (.call id _) :: r => id :: modIds r
+  | _ :: r => modIds r
+
+/-- the `*` entry itself stays in `bindings.List`: `* = self.x…` refers to
+`x` (whether or not a member matches), `* = self` to no input -/
+def wildIds : Option Wild → List Bytes
+  | some (.ref e) => e.selfIds
+  | _ => []
+
+/-- the inputs the binding list of a CALL uses: the written bindings, the `*`
+entry and the expansion of the wildcard (`bindings.List` after
+`compileWildcard`).  Only `* = self` and `* = self.x…` expand to references to
+inputs, so the environment of the pipeline's inputs alone decides. -/
+def usedByBinds (ins : List (Bytes × Ty)) (params : List (Bytes × Ty)) (binds : List (Bytes × Bind))
+    (w : Option Wild) : List Bytes :=
+  let bs := match allBinds { self := ins, calls := [] } params binds w with
+    | some bs => bs
+    | none => binds
+  (bs.flatMap fun ib => ib.2.selfIds) ++ wildIds w
+
+/-- the RETURN bindings are looked at before `compileReturns` has expanded their
+wildcard: the written bindings and the `*` entry only (`* = self` in a return
+statement does not make the inputs used) -/
+def usedByReturn (binds : List (Bytes × Bind)) (w : Option Wild) : List Bytes :=
+  (binds.flatMap fun ib => ib.2.selfIds) ++ wildIds w
+
+def usedInputs (p : Pipeline) : List Bytes :=
+  (p.calls.flatMap fun c => usedByBinds p.ins c.callee.params c.binds c.wild ++ modIds c.mods.usings) ++
+    usedByReturn p.ret p.retWild
+
+/-- the inputs no call and no return binding uses (`UnusedInputError`; the
+retain list does not count) -/
+def unusedInputs (p : Pipeline) : List Bytes :=
+  (p.ins.map Prod.fst).filter fun i => !(usedInputs p).contains i
+
+inductive PipeErrU where
+  | call | unused | ret | retain
+  deriving DecidableEq, Repr
+
+/-- `checkPipeline` with the `UnusedInputError` check at its place: after the
+calls, before the return bindings -/
+def checkPipelineU (p : Pipeline) : Except PipeErrU Env :=
+  match checkCalls { self := p.ins, calls := [] } p.calls with
+  | none => .error .call
+  | some Γ =>
+    if !(unusedInputs p).isEmpty then .error .unused
+    else if !checkReturn Γ p.outs p.ret p.retWild then .error .ret
+    else if !pipeRetainOk Γ p.retain then .error .retain
+    else .ok Γ
+
+def validPipelineU (p : Pipeline) : Bool :=
+  match checkPipelineU p with
+  | .ok _ => true
+  | .error _ => false
+
+/-! ## The top-level `call` statement (`compileCall`) -/
+
+def emptyEnv : Env := { self := [], calls := [] }
+
+/-- `call ID(…)` at the top of a file: there is no enclosing pipeline, so no
+reference resolves (`ReferenceError`) and a wildcard is an error; it cannot be
+`disabled` or `preflight` – but `compileCall` only looks when the call has a
+`using (…)` list, so `call preflight STAGE(…)` of a stage without outputs is
+accepted; it may be a `map call` over literals. -/
+def checkTop (c : CallStm) : Option (Option SplitShape) :=
+  if c.wild.isNone && modsOk emptyEnv c.callee c.binds none c.mods &&
+      (c.mods.usings.isEmpty ||
+        ((usingDisabled c.mods.usings).isNone &&
+          !effective c.mods.kwPreflight (usingVal 1 c.mods.usings)))
+  then checkCall emptyEnv c.callee.params c.binds
+  else none
+
+def validTop (c : CallStm) : Bool := (checkTop c).isSome
+
+end Martian.Typing
